@@ -117,7 +117,7 @@ type hist struct {
 	neg   bool // negative positions are in the candidate pool
 	// feature: the one class of operations with a known, reported defect that this history may use, and only in its
 	// last 40% ("risky" phase), so that every history first explores everything else and one history in five ends
-	// with the sweep over all versions:  "" none | "kind" overwrite with another kind | "neg" negative coordinates |
+	// with the sweep over all versions:  "" none | "kind" overwrite with another kind | "neg" cleave under an element at negative coordinates |
 	// "samebody" move within one body | "mapped" voxel writes to blocks whose elements sit on merged/cleaved supervoxels
 	feature string
 	risky   bool
@@ -210,15 +210,15 @@ func (h *hist) setup() error {
 			return fmt.Errorf("sync %s->%s refused: %s", s[0], s[1], r)
 		}
 	}
-	// The label volume always sits at non-negative coordinates: the labelmap's own answers for voxels at
-	// negative coordinates are not self-consistent (its block arithmetic truncates towards zero), so it cannot
-	// serve as a fixture there.  Negative element positions therefore lie on background (no label block stored).
-	o := h.org
-	// ROI: spans of blocks (a block row of the volume, one partly outside, in negative histories one at negative block coordinates)
-	h.spans = []am.Span{{0, 0, 0, 1}, {1, 1, 1, 2}}
+	// "neg" histories put the label volume at negative coordinates (origin −32,−32,−32) so that −1|0 is a block border
+	// between labelled voxels and elements sit on bodies at negative coordinates.
 	if h.neg {
-		h.spans = append(h.spans, am.Span{0, 0, -1, -1}, am.Span{-1, -1, -1, 0})
+		h.org = am.Point{-BS, -BS, -BS}
 	}
+	o := h.org
+	ob := o.Block(BS)
+	// ROI: spans of blocks (a block row of the volume, one partly outside)
+	h.spans = []am.Span{{ob[2], ob[1], ob[0], ob[0] + 1}, {ob[2] + 1, ob[1] + 1, ob[0] + 1, ob[0] + 2}}
 	sb, _ := json.Marshal(h.spans)
 	r, err := h.w.Post("/api/node/"+h.root+"/roi/roi", sb)
 	if err != nil {
@@ -246,7 +246,7 @@ func (h *hist) setup() error {
 	}
 	for by := int32(0); by < 2; by++ {
 		for bz := int32(0); bz < 2; bz++ {
-			h.lateBlk = append(h.lateBlk, am.Point{o[0]/BS + 2, o[1]/BS + by, o[2]/BS + bz})
+			h.lateBlk = append(h.lateBlk, am.Point{ob[0] + 2, ob[1] + by, ob[2] + bz})
 		}
 	}
 	v0 := &vstate{uuid: h.root, name: "n0", elems: am.NewSet(BS), vol: vol, labels: map[uint64]bool{}}
@@ -293,16 +293,10 @@ func (h *hist) setup() error {
 	// background far outside the volume (no label block stored there)
 	add(am.Point{o[0] + 200, o[1] + 5, o[2] + 70})
 	add(am.Point{o[0] + 201, o[1] + 6, o[2] + 70})
-	if h.neg { // −1|0 : background voxels next to labelled ones, across the block border at the origin
-		y, z := rc(1, 31), rc(1, 31)
-		add(am.Point{-1, y, z})
-		add(am.Point{0, y, z})
-		add(am.Point{rc(1, 31), -1, rc(1, 31)})
-		add(am.Point{rc(1, 31), rc(8, 31), -1})
+	if h.neg {
 		add(am.Point{-1, -1, -1})
-		add(am.Point{-5, rc(8, 31), -1})
-		add(am.Point{-33, 40, 2})
-		add(am.Point{-70, 3, -2})
+		add(am.Point{0, 0, 0})
+		add(am.Point{-70, 3, -2}) // negative and outside the volume
 	}
 	sort.Slice(h.pool, func(i, j int) bool { return h.pool[i].Less(h.pool[j]) })
 	h.r.Shuffle(len(h.pool), func(i, j int) { h.pool[i], h.pool[j] = h.pool[j], h.pool[i] })
@@ -349,8 +343,8 @@ func (h *hist) randElem(p am.Point) *am.Element {
 
 func (h *hist) allow(f string) bool { return h.feature == f && h.risky }
 
-// usable: negative positions only in the risky phase of a "neg" history
-func (h *hist) usable(p am.Point) bool { return !p.HasNeg() || h.allow("neg") }
+// usable: every candidate position may be used at any time
+func (h *hist) usable(p am.Point) bool { return true }
 
 func (h *hist) freePositions(v *vstate) []am.Point {
 	var out []am.Point
@@ -1012,6 +1006,10 @@ func (h *hist) opCleave(v *vstate) error {
 	}
 	h.opNT = false
 	n, neg := h.elemsTouched(v, func(p am.Point) bool { return cs[v.vol.SVAt(p)] })
+	if neg && !h.allow("neg") {
+		// cleaving a supervoxel under an element at negative coordinates has a known, reported defect: late phase only
+		return h.opMerge(v)
+	}
 	h.opClass = "cleave" + negSuffix(neg)
 	body, _ := json.Marshal(cll)
 	out, ok, err := h.labelPost(v, fmt.Sprintf("cleave/%d", b), body, "cleave")
@@ -1157,7 +1155,7 @@ func (h *hist) opMutate(v *vstate) error {
 	for bx := int32(0); bx < nbx; bx++ {
 		for by := int32(0); by < 2; by++ {
 			for bz := int32(0); bz < 2; bz++ {
-				b := am.Point{o[0]/BS + bx, o[1]/BS + by, o[2]/BS + bz}
+				b := am.Point{o.Block(BS)[0] + bx, o.Block(BS)[1] + by, o.Block(BS)[2] + bz}
 				if bx == 2 {
 					stored := false
 					for i := 0; i < v.late; i++ {
@@ -1450,6 +1448,10 @@ func siteKey(view, opClass string) string {
 		return "annotation:mutateBlock-indexes-by-supervoxel-id"
 	case lab && strings.HasPrefix(base, "ingest-block:mapped-supervoxel"):
 		return "annotation:ingestBlock-indexes-by-supervoxel-id"
+	case lab && opClass == "cleave:neg":
+		// labelmap.partitionPoints (GetPointsInSupervoxels, used by the annotation's cleave sync) divides with truncation:
+		// elements at negative coordinates are looked up in the wrong block and stay with the old body
+		return "labelmap:GetPointsInSupervoxels-negative-coordinate"
 	}
 	return view + ":" + opClass
 }
@@ -1917,8 +1919,8 @@ func run(c *drv.Ctx) error {
 	c.Rule("a case is one view comparison (GET elements/<size>/<offset>, blocks/<size>/<offset>, all-elements, roi/<spec>, tag/<t> and label/<l> with and without relationships, labelsz count / counts / top / threshold per index type) " +
 		"after one operation of a random sequential history on a small version DAG (commit + newversion / branch; committed ancestors are compared again), after the worker settled; operations: POST elements (new / overwrite / mutual and one-sided relationships / " +
 		"tag swap inside one block), DELETE element, move (same or other block; same body, other body, background), POST blocks + reload (in-memory or low-memory) + labelsz reload, and merge / cleave / split-supervoxel / split / POST raw?mutate=true / " +
-		"first-time block ingest on the synced labelmap; positions straddle block borders (…31|32…, 63|64) and supervoxel borders and lie on background outside any label block. Five operation classes have known, reported defects; " +
-		"every history may use exactly one of them (history index mod 5: none / overwrite with another kind / negative coordinates incl. −1|0 / move within one body / voxel writes under elements on merged or cleaved supervoxels) and only in its last 40%, " +
+		"first-time block ingest on the synced labelmap; positions straddle block borders (…31|32…, 63|64) and supervoxel borders and lie on background outside any label block; every fifth history has its whole label volume at negative coordinates (origin −32,−32,−32, so −1|0 is a block border between labelled voxels). Four operation classes have known, reported defects; " +
+		"every history may use exactly one of them (history index mod 5: none / overwrite with another kind / cleave under an element at negative coordinates / move within one body / voxel writes under elements on merged or cleaved supervoxels) and only in its last 40%, " +
 		"so all histories explore the rest first and a history stops at its first fatal violation (model and server have diverged). " +
 		"A case is non-trivial when the expected view holds >= 2 elements or the last operation touched an element with tags or relationships; distinct by (view kind, class of the last operation, expected content)")
 	c.Assume("the label volume is a fixture here: the model's body at every element position is cross-checked against the labelmap's own GET label/<coord>; a disagreement aborts the run as BROKEN instead of producing a verdict")
